@@ -46,42 +46,51 @@ impl BlockMap {
         })
     }
 
+    /// index of the block containing byte `pos`, if any
+    fn block_of(&self, pos: u64) -> Option<u64> {
+        self.blocks.range(..=pos).next_back().filter(|(start, len)| pos < **start + 8 + **len).map(|(s, _)| *s)
+    }
+
     /// Judges the I/O log of one public cursor operation; returns the number of block loads.
+    /// A load is counted every time reading moves to another block (by the byte ranges actually read, against the
+    /// independent decoder's block map) or re-enters a block after a seek; bytes outside every block (the trailer)
+    /// count as a load of their own. How the implementation positions itself (seek targets) is not judged.
     pub fn judge_op(&self, log: &[IoEvent], what: &dyn Fn() -> String) -> Check<usize> {
+        let mut loads = 0usize;
         let mut seeks = 0usize;
-        let mut starts = 0usize;
-        let mut window: Option<(u64, u64)> = None;
+        let mut current: Option<Option<u64>> = None; // Some(block) being read; None right after a seek
         for ev in log {
             match ev {
-                IoEvent::Seek(p) => {
+                IoEvent::Seek(_) => {
                     seeks += 1;
-                    window = self.blocks.get(p).map(|len| (*p, p + 8 + len));
-                    if window.is_none() {
-                        return Err(Fail::new("c16:seek-not-a-block", format!("{}: seek to {} which is not the start of a block", what(), p)));
-                    }
+                    current = None;
                 }
                 IoEvent::Read { pos, len } => {
-                    if self.blocks.contains_key(pos) {
-                        starts += 1;
+                    if *len == 0 {
+                        continue;
                     }
-                    match window {
-                        Some((a, b)) if *pos >= a && pos + *len as u64 <= b => {}
-                        _ => {
-                            return Err(Fail::new(
-                                "c16:read-outside-sought-block",
-                                format!("{}: read of {} bytes at {} lies outside the block that was sought ({:?})", what(), len, pos, window),
-                            ))
+                    // a read may span several blocks (sequential run-on): each one touched is a load
+                    let mut p = *pos;
+                    let end = pos + *len as u64;
+                    while p < end {
+                        let blk = self.block_of(p);
+                        if current != Some(blk) {
+                            loads += 1;
+                            current = Some(blk);
                         }
+                        p = match blk {
+                            Some(start) => (start + 8 + self.blocks[&start]).min(end).max(p + 1),
+                            None => end,
+                        };
                     }
                 }
             }
         }
-        let loads = seeks.max(starts);
         let bound = 2 * (self.levels + 2);
         if loads > bound {
             return Err(Fail::new(
                 "c16:too-many-loads",
-                format!("{}: {} block loads ({} seeks, {} reads at block starts) for one operation, bound 2*(levels+2) = {} ({} data blocks)", what(), loads, seeks, starts, bound, self.data_blocks),
+                format!("{}: {} block loads ({} seeks) for one operation, bound 2*(levels+2) = {} ({} data blocks)", what(), loads, seeks, bound, self.data_blocks),
             ));
         }
         Ok(loads)
@@ -146,9 +155,9 @@ impl Prop for C16 {
         "case = file (up to 60 000 entries / ~2 000 data blocks of 1 KiB, levels 0..=6, all codecs; a few files of 60 000..500 000 entries) x 200-operation history, \
          or small deep file x every reachable cursor state x every operation (BFS as in C03). The reader runs over an \
          instrumented source logging every seek target and read range per public call. Oracle: Reader::new reads only \
-         inside the trailer; every cursor operation performs <= 2*(levels+2) block loads (a load = an absolute seek, or a \
-         read starting at a block start of the independent decoder's block map; the larger count is judged), seeks only \
-         to block starts, and every byte read lies inside the block that was sought. non-trivial = operation on a file with \
+         inside the trailer; every cursor operation performs <= 2*(levels+2) block loads, a load being counted whenever the \
+         bytes actually read move into another block of the independent decoder's block map (or re-enter one after a \
+         seek); how the implementation positions itself is not judged. non-trivial = operation on a file with \
          >=50 data blocks whose load count >= levels+2; distinct = hash(file, operation index)"
             .into()
     }
